@@ -668,3 +668,33 @@ package router
 //@   loop 2:
 //@     invariant len(resp.Questions) == 1 && rangeindex == 0 && rq == resp.Questions[0] && rq.Type == q.Type && rq.Class == q.Class && len(rq.Name) == len(q.Name)
 //@     invariant forall(k, 0, rangeindex_2 + 1, lowerB(rq.Name[k]) == lowerB(q.Name[k]))
+
+// ---- admission (C15): the cost of a connection / query is charged to the address of the client that caused it ----
+//@ func netAddr2NetipAddr(v net.Addr) (ap netip.AddrPort)
+//@   trusted
+//@   modifies nothing
+//@ func debugLogServerConnAccepted(c logConn, logger *zerolog.Logger)
+//@   trusted
+//@   modifies nothing
+//@ func debugLogServerConnClosed(c logConn, logger *zerolog.Logger, cause error)
+//@   trusted
+//@   modifies nothing
+
+// quicServer.run (accept loop): every accepted connection is charged to its REMOTE address; a refused one is
+// closed and never handled.
+//@ func (s *quicServer) run() (err error)
+//@   props C15
+//@   requires s != nil && s.r != nil && s.l != nil && s.logger != nil
+//@   noterm
+//@   ghost gRemote net.Addr = nil
+//@   ghost nRemote int = 0
+//@   ghost gAdm error = nil
+//@   oncall RemoteAddr?: nRemote = nRemote + 1
+//@   aftercall RemoteAddr?: gRemote = ret0
+//@   aftercall limiterAllowN: gAdm = ret0
+//@   modifies *
+//@   callsite netAddr2NetipAddr: [C15:connection-cost-charged-to-the-client] nRemote >= 1 && arg0 == gRemote
+//@   callsite go: [C15:refused-connection-not-served] gAdm == nil
+//@   loop 1:
+//@     modifies *
+//@     invariant s != nil && s.r != nil && s.l != nil && s.logger != nil && r == s.r
